@@ -71,6 +71,10 @@ type Stream struct {
 	// Contains frames waiting to be sent to the peer. Is emptied by AsyncFlush or Flush.
 	pendingFrames []*Frame
 
+	// True while AsyncFlush has a write in flight. Flushes requested meanwhile wait for it in asyncFlushWaiters.
+	asyncFlushing     bool
+	asyncFlushWaiters []func(err error)
+
 	// Optional callback invoked when a control frame is received.
 	controlCallback ControlCallback
 
@@ -167,6 +171,8 @@ func (s *Stream) reset() {
 		s.releaseFrame(f)
 	}
 	s.pendingFrames = s.pendingFrames[:0]
+	s.asyncFlushing = false
+	s.asyncFlushWaiters = nil
 }
 
 // Returns the stream through which IO is done.
@@ -729,6 +735,27 @@ func (s *Stream) Flush() (err error) {
 //
 // This call does not block.
 func (s *Stream) AsyncFlush(callback func(err error)) {
+	if s.asyncFlushing {
+		// The transport has one write in flight at most. The flush in flight also sends the frames queued since it
+		// started, so we only wait for it.
+		s.asyncFlushWaiters = append(s.asyncFlushWaiters, callback)
+		return
+	}
+
+	s.asyncFlushing = true
+	s.asyncFlush(func(err error) {
+		s.asyncFlushing = false
+		waiters := s.asyncFlushWaiters
+		s.asyncFlushWaiters = nil
+
+		callback(err)
+		for _, waiter := range waiters {
+			waiter(err)
+		}
+	})
+}
+
+func (s *Stream) asyncFlush(callback func(err error)) {
 	if len(s.pendingFrames) == 0 {
 		callback(nil)
 	} else {
@@ -741,7 +768,7 @@ func (s *Stream) AsyncFlush(callback func(err error)) {
 			if err != nil {
 				callback(err)
 			} else {
-				s.AsyncFlush(callback)
+				s.asyncFlush(callback)
 			}
 		})
 	}
